@@ -116,7 +116,7 @@ Definition rf_m : machine :=
   mkM [ Node 0 [65] None false [] [[108]] false NoInit []; Node 1 [66] None false [] [] false NoInit [];
         Node 3 [68] None false [] [] false NoInit [] ]
       [ mkT [103] None [0] (Some [1]) [] []; mkT [120] None [0] (Some [3]) [] [] ]
-      [0] (mkO false false false false false) [([108], [120])] 1 [].
+      [0] (mkO false false false false false true) [([108], [120])] 1 [].
 Theorem C16_styles_exit_refuted :
   exists m ops, wf_kind (m_opts m) (m_states m) = true /\ wf_forest (m_states m) = true /\
     exit_inert m = false /\
@@ -135,7 +135,7 @@ Print Assumptions C16_styles_exit_refuted.
 Definition rg_m : machine :=
   mkM [ Node 0 [65] None false [] [[114]] false NoInit []; Node 1 [66] None false [] [] false NoInit [] ]
       [ mkT [103] None [0] (Some [1]) [] [] ]
-      [0] (mkO false false false false false) [] 0 [[114]].
+      [0] (mkO false false false false false true) [] 0 [[114]].
 Theorem C16_styles_regen_refuted :
   exists m ops, wf_kind (m_opts m) (m_states m) = true /\ wf_forest (m_states m) = true /\
     exit_inert m = false /\
@@ -180,6 +180,14 @@ Theorem C16_added_state : forall d s,
 Proof. exact add_state_appears. Qed.
 Print Assumptions C16_added_state.
 
+(* add_states with a list: every state of the list is declared (in particular the states that follow a
+   compound state in the same call). *)
+Theorem C16_added_states : forall d l s,
+  wf_kind (m_opts (d_m d)) (m_states (d_m d) ++ l) = true -> In s l ->
+  In (Decl [s_id s] (disp (m_opts (d_m d)) s)) (view (step d (AddStates l))).
+Proof. exact add_states_appear. Qed.
+Print Assumptions C16_added_states.
+
 Theorem C16_added_transition : forall d t, wf_trans t = true ->
   let m' := apply_op (d_m d) (AddTrans t) in
   In (Edge (t_src t) (dst_of t) (labels_for (m_opts m') (elements m') (t_src t) (dst_of t))) (view (step d (AddTrans t)))
@@ -208,7 +216,7 @@ Definition ex_trans : list trans :=
   [ mkT [103; 111] None [0] (Some [1]) [([99; 48], true)] [([99; 49], false)];
     mkT [105] None [1; 10] None [] [];
     mkT [110] (Some [78]) [1; 10] (Some [1; 11]) [] [] ].
-Definition ex_m : machine := mkM ex_forest ex_trans [0] (mkO true false true true false) [] 0 [].
+Definition ex_m : machine := mkM ex_forest ex_trans [0] (mkO true false true true false true) [] 0 [].
 Definition ex_ops : list op :=
   [ Ev [103; 111]; Ev [105]; Ev [110]; AddState (ex_leaf 3 [67] false);
     AddTrans (mkT [122] None [3] (Some [0]) [] []); RemTrans [105] None None ].
@@ -230,7 +238,7 @@ Definition nx_m : machine :=
   mkM [ Node 0 [65] None false [] [] false NoInit []; Node 1 [66] None false [[102]] [] false NoInit [];
         Node 2 [67] None false [] [] false NoInit [] ]
       [ mkT [103] None [0] (Some [1]) [] []; mkT [111] None [1] (Some [2]) [] [] ]
-      [0] (mkO false false false false false) [([102], [111])] 2 [].
+      [0] (mkO false false false false false true) [([102], [111])] 2 [].
 Example C16_example_nested :
   exit_inert nx_m = true /\ forallb (op_inert (cbcfg nx_m)) [Ev [103]] = true
   /\ d_cur (run nx_m [Ev [103]]) = [[2]] /\ d_last (run nx_m [Ev [103]]) = Some [1]
